@@ -28,6 +28,7 @@ op_ctx = dict(
         (r'unifex::set_value\(\s*std::move\(receiver_\), std::vector<sender_nonvoid_value_type>\{\}\)', 'EV_set_value_empty(self)'),
         (r'stopCallback_\.construct\(\s*unifex::get_stop_token\(receiver_\), cancel_operation\{\*this\}\)', 'EV_cb_construct(self)'),
         (r'std::for_each\(\s*holders_, holders_ \+ numHolders_, \[\]\(auto& holder\) noexcept \{\s*unifex::start\(holder\.connection\);\s*\}\)', 'EV_start_children(self)'),
+        (r'stopSource_\.stop_requested\(\)', 'EV_children_stop_requested(self)'),
         (r'stopSource_\.request_stop\(\)', 'EV_stop_children(self)'),
         (r'stopCallback_\.destruct\(\)', 'EV_cb_destruct(self)'),
         # completion signals: payload dropped, channel kept
@@ -51,6 +52,7 @@ rcv_ctx = dict(
         (r'op_\.holders_\[index_\]\.value\.emplace\([^;]*\);', 'if (EV_store_value(self)) goto vf_catch;'),
         (r'this->set_error\(std::current_exception\(\)\)', 'element_receiver_set_error(self)'),
         (r'op_\.error_\.emplace\([^;]*\);', 'EV_store_error(self);'),
+        (r'op_\.stopSource_\.stop_requested\(\)', 'EV_children_stop_requested(self->op_)'),
         (r'op_\.stopSource_\.request_stop\(\)', 'EV_stop_children(self->op_)'),
         (r'\bop_\.', 'op_->'),
     ],
